@@ -730,7 +730,10 @@ func (e *omegaEnv) ruleNoMutationBeforeErrorF(rule string, exempt map[string]str
 			}
 			bad := 0
 			for _, m := range muts {
-				if _, reach := findPathF(pathQuery{start: m.in, target: func(in ssa.Instruction) bool { return in == x.in }}); !reach {
+				// a helper that writes only on the ways out that report success (…, ok): the mutation happened only if
+				// the caller then sees ok == true, so paths through the "not ok" edge of that result carry no mutation
+				notOK := e.notOKEdges(f, m.in, sum)
+				if _, reach := findPathF(pathQuery{start: m.in, target: func(in ssa.Instruction) bool { return in == x.in }, edgeBlock: func(ed edge) bool { return notOK[ed] }}); !reach {
 					continue
 				}
 				key := fmt.Sprintf("%s · %s after %s", omegaKey(f), x.desc, m.desc)
@@ -751,6 +754,69 @@ func (e *omegaEnv) ruleNoMutationBeforeErrorF(rule string, exempt map[string]str
 			}
 		}
 	}
+}
+
+// notOKEdges: if in is a call of a package helper g that has a boolean result which is the constant true on
+// every return of g that a state mutation inside g can reach, the edges of the caller on which that result is
+// false. (Empty otherwise.)
+func (e *omegaEnv) notOKEdges(f *ssa.Function, in ssa.Instruction, sum map[*ssa.Function]string) map[edge]bool {
+	out := map[edge]bool{}
+	call, ok := in.(*ssa.Call)
+	if !ok {
+		return out
+	}
+	g := call.Call.StaticCallee()
+	if g == nil || len(g.Blocks) == 0 {
+		return out
+	}
+	rs := g.Signature.Results()
+	for k := 0; k < rs.Len(); k++ {
+		if !isBoolT(rs.At(k).Type()) {
+			continue
+		}
+		// returns reachable after a mutation inside g
+		good := true
+		var muts []ssa.Instruction
+		allInstrs(g, func(x ssa.Instruction) {
+			if d := e.directMutation(x, sum, false); d != "" {
+				muts = append(muts, x)
+			}
+		})
+		if len(muts) == 0 {
+			continue
+		}
+		allInstrs(g, func(x ssa.Instruction) {
+			r, isR := x.(*ssa.Return)
+			if !isR || !good {
+				return
+			}
+			res := retResults(r)
+			if k >= len(res) {
+				good = false
+				return
+			}
+			for _, mu := range muts {
+				if _, reach := findPathF(pathQuery{start: mu, target: func(y ssa.Instruction) bool { return y == x }}); reach {
+					if kc, isC := res[k].(*ssa.Const); !isC || kc.Value == nil || kc.Value.String() != "true" {
+						good = false
+					}
+				}
+			}
+		})
+		if !good {
+			continue
+		}
+		for _, r := range *call.Referrers() {
+			ex, isEx := r.(*ssa.Extract)
+			if !isEx || ex.Index != k {
+				continue
+			}
+			for _, ed := range condEdges(f, func(v ssa.Value) (bool, bool) { return v == ssa.Value(ex), false }) {
+				out[ed] = true
+			}
+		}
+	}
+	return out
 }
 
 func blockName(in ssa.Instruction) string { return fmt.Sprintf("b%d", in.Block().Index) }
